@@ -783,7 +783,10 @@ def register(reg, prog):
         return [('exchanges-dropped-before-transport-shutdown', ev('self._active_exchanges is None')),
                 ('no-monitor-called', B(not evs(s, 'call'))),
                 ('nothing-transmitted', B(not evs(s, 'wire', 'send_initially'))),
-                ('invariant-after-shutdown', ev('mm_inv_sd(self)'))]
+                ('invariant-after-shutdown', ev('mm_inv_sd(self)')),
+                # every entry of _recent_messages has an armed expiry timer that pops it WITHOUT a default (a missing entry
+                # raises KeyError in the event loop after shutdown): shutdown must leave the entries to their timers
+                ('deduplication-entries-are-left-to-their-expiry-timers', dict_frame(ex, s, entry, env['self'], reg.classes['MessageManager'].fields, '_recent_messages'))]
 
     reg.contract(MM + '.shutdown', properties=['C18'], requires=['mm_inv(self)'],
                  raises={'CancelledError': MAY}, only_raises=True,
